@@ -155,6 +155,10 @@ func (s *SFlow) run() {
 		atomic.AddUint64(&s.stats.UDPCount, 1)
 		sFlowUDPCh <- SFUDPMsg{raddr, b[:n]}
 	}
+
+	// only the sender closes the channel: a datagram read just before
+	// the stop must still be handed over, not hit a closed channel
+	close(sFlowUDPCh)
 }
 
 func (s *SFlow) shutdown() {
@@ -169,7 +173,6 @@ func (s *SFlow) shutdown() {
 	time.Sleep(1 * time.Second)
 	s.conn.Close()
 	logger.Println("sFlow has been shutdown")
-	close(sFlowUDPCh)
 }
 
 func (s *SFlow) sFlowWorker(wQuit chan struct{}) {
